@@ -99,6 +99,32 @@ fn inner_models(tier: Tier) -> Vec<(Vec<VarDecl>, Con)> {
     out
 }
 
+/// A stride of the reified / half-reified cases with a free reification literal (positive and
+/// negative polarity, reified negation), for the explanation check C17.
+pub fn reified_models(tier: Tier) -> Vec<Model> {
+    let stride = if tier.quick() { 23 } else { 5 };
+    let linear_stride = 1;
+    let mut out = vec![];
+    let mut k = 0usize;
+    for (vars, inner) in inner_models(tier) {
+        for mode in [Mode::Implied, Mode::Reified, Mode::ReifiedNegation] {
+            for status in [LitStatus::Free, LitStatus::NegativeFree] {
+                k += 1;
+                // the wrapped linear propagator is the one that reports inconsistencies to the
+                // reification wrapper (which caches them): these cases are taken more densely
+                let linear = matches!(inner, Con::LinLe(..) | Con::LinEq(..) | Con::BinLe(..) | Con::BinLt(..) | Con::BinEq(..));
+                if k % (if linear { linear_stride } else { stride }) != 0 {
+                    continue;
+                }
+                if let Some(m) = build_case(&vars, &inner, mode, status) {
+                    out.push(m);
+                }
+            }
+        }
+    }
+    out
+}
+
 fn build_case(vars: &[VarDecl], inner: &Con, mode: Mode, status: LitStatus) -> Option<Model> {
     if matches!(inner, Con::PredClause(..) | Con::ViewClause(..)) {
         return None; // Solver::add_clause has no reified form
@@ -145,7 +171,7 @@ fn build_case(vars: &[VarDecl], inner: &Con, mode: Mode, status: LitStatus) -> O
 
 /// Orders in which the variables get fixed: InputOrder over permutations (the reification
 /// literal first / last / in between) with min and max value selection.
-fn orders(n: usize) -> Vec<(Vec<usize>, usize)> {
+pub fn orders(n: usize) -> Vec<(Vec<usize>, usize)> {
     let r = n - 1;
     let others: Vec<usize> = (0..r).collect();
     let mut perms: Vec<Vec<usize>> = vec![];
@@ -242,7 +268,7 @@ fn inner_kind(c: &Con) -> String {
     }
 }
 
-fn run_order(model: &Model, sols: &[Vec<i32>], cfg: &Cfg, perm: &[usize], valsel: usize, cx: &mut CaseCtx) {
+pub fn run_order(model: &Model, sols: &[Vec<i32>], cfg: &Cfg, perm: &[usize], valsel: usize, cx: &mut CaseCtx) {
     verif_tap::configure(Default::default());
     let main = model
         .cons
